@@ -6,7 +6,7 @@
     sweeps (Corr/RunC12.v), labelled as tests in the evidence. *)
 From Coq Require Import QArith ZArith List Bool.
 From Perf Require Import Base.B64 Model.StatsQ Model.StatsF Model.Beta Model.TDist Model.TTest Model.Bisect.
-From Perf Require Import Proofs.StatsQ Proofs.TTest.
+From Perf Require Import Proofs.StatsQ Proofs.TTest Model.TTestQ Proofs.TTestQ.
 Import ListNotations.
 
 (** ** descriptive statistics over exact rationals *)
@@ -144,6 +144,52 @@ Theorem C12_tcdf_reflection : forall betainc v x,
 Proof. exact tcdf_reflection. Qed.
 Print Assumptions C12_tcdf_reflection.
 
+
+(** the positive branch of the t CDF has the two documented forms *)
+Theorem C12_tcdf_pos_branches : forall betainc v x,
+  (b64_lt (b64_mul x x) v = true ->
+   tcdf_pos betainc v x =
+   res_map (fun i => b64_add k_half (b64_mul k_half i))
+           (betainc (b64_div (b64_mul x x) (b64_add v (b64_mul x x))) k_half (b64_div v k_two))) /\
+  (b64_lt (b64_mul x x) v = false ->
+   tcdf_pos betainc v x =
+   res_map (fun i => b64_sub b64_one (b64_mul k_half i))
+           (betainc (b64_div v (b64_add v (b64_mul x x))) (b64_div v k_two) k_half)).
+Proof. exact tcdf_pos_branches. Qed.
+Print Assumptions C12_tcdf_pos_branches.
+
+(** ** textbook t-test formulas over exact rationals (Model/TTestQ.v) *)
+
+(** the degrees of freedom in the order ttest.go computes them are the
+    Welch-Satterthwaite value as usually printed *)
+Theorem C12_welch_dof_forms : forall v1 n1 v2 n2 : Q,
+  (~ n1 == 0 -> ~ n2 == 0 -> ~ n1 - 1 == 0 -> ~ n2 - 1 == 0 ->
+   ~ v1 * v1 / (n1 * n1 * (n1 - 1)) + v2 * v2 / (n2 * n2 * (n2 - 1)) == 0 ->
+   welch_dof_q v1 n1 v2 n2 == welch_dof_textbook_q v1 n1 v2 n2)%Q.
+Proof. exact welch_dof_forms. Qed.
+Print Assumptions C12_welch_dof_forms.
+
+(** min(n1,n2) - 1 <= nu <= n1 + n2 - 2 *)
+Theorem C12_welch_dof_bounds : forall v1 n1 v2 n2 : Q,
+  (1 < n1 -> 1 < n2 -> 0 <= v1 -> 0 <= v2 -> 0 < v1 + v2 ->
+   Qminmax.Qmin n1 n2 - 1 <= welch_dof_q v1 n1 v2 n2 /\ welch_dof_q v1 n1 v2 n2 <= n1 + n2 - 2)%Q.
+Proof. exact welch_dof_bounds. Qed.
+Print Assumptions C12_welch_dof_bounds.
+
+(** pooled variance = pooled sum of squared deviations / (n1+n2-2) *)
+Theorem C12_pooled_var_is_pooled_ssd : forall xs1 xs2 : list Q,
+  (~ len_q xs1 - 1 == 0 -> ~ len_q xs2 - 1 == 0 ->
+   pooled_var_q (variance_q xs1) (len_q xs1) (variance_q xs2) (len_q xs2)
+   == (ssd_q (mean_q xs1) xs1 + ssd_q (mean_q xs2) xs2) / (len_q xs1 + len_q xs2 - 2))%Q.
+Proof. exact pooled_var_is_pooled_ssd. Qed.
+Print Assumptions C12_pooled_var_is_pooled_ssd.
+
+(** paired test: the mean of the differences is the difference of the means *)
+Theorem C12_paired_mean_is_mean_diff : forall xs ys : list Q, length xs = length ys ->
+  (mean_q (diffs_q xs ys) == mean_q xs - mean_q ys)%Q.
+Proof. exact paired_mean_is_mean_diff. Qed.
+Print Assumptions C12_paired_mean_is_mean_diff.
+
 (** betacf panics exactly when none of its 200 iterations converges *)
 Theorem C12_betacf_fuel : forall x a b,
   let d0 := b64_div b64_one
@@ -170,6 +216,11 @@ Proof. exact bisect_brackets_partial. Qed.
 Print Assumptions C12_bisect_brackets_partial.
 
 (** ** non-vacuity: concrete instances of the hypotheses *)
+Example C12_example_welch_dof :
+  (Qeq_bool (welch_dof_q 4 10 1 3) (welch_dof_textbook_q 4 10 1 3) && Qle_bool 2 (welch_dof_q 4 10 1 3)
+   && Qle_bool (welch_dof_q 4 10 1 3) 11 && Qeq_bool (welch_dof_q 4 10 1 3) (22 # 3))%bool = true.
+Proof. vm_compute. reflexivity. Qed.
+
 Example C12_example_Q :
   let xs := [3; 1; 2; 10]%Q in
   (Qeq_bool (mean_inc_q 0 0 xs) 4 && Qeq_bool (welford_q xs) (50 # 3)
